@@ -3,7 +3,7 @@ from .node import Node
 from .expr import Expr, Type, Operator
 from .program import LineNo
 from .utils import parse_data, split_camel
-from .exceptions import ErrorCode as EC, SyntaxError, CompileError
+from .exceptions import EvalError, ErrorCode as EC, SyntaxError, CompileError
 
 
 class Stmt(Node):
@@ -42,7 +42,18 @@ class ArrayDimRange(Stmt):
 
     @property
     def is_const(self):
-        return self.lbound.is_const and self.ubound.is_const
+        if not (self.lbound.is_const and self.ubound.is_const):
+            return False
+
+        # a constant bound that cannot be evaluated (like 1 \ 0) is
+        # treated like a run-time bound: the error is a run-time error.
+        try:
+            self.static_lbound
+            self.static_ubound
+        except (ArithmeticError, ValueError, TypeError, EvalError):
+            return False
+
+        return True
 
     @classmethod
     def node_name(cls):
@@ -71,10 +82,7 @@ class VarDeclClause(Stmt):
 
     @property
     def array_dims_are_const(self):
-        return all(
-            r.lbound.is_const and r.ubound.is_const
-            for r in self.array_dims
-        )
+        return all(r.is_const for r in self.array_dims)
 
     @property
     def type(self):
